@@ -24,104 +24,94 @@ Proof.
   now apply failed_at_put_row_other.
 Qed.
 
-(* the walk of one row's dependencies keeps the mark of any other row *)
-Lemma walk_deps_keeps_failed isd runid f r g :
-  (g - 1 <> f - 1)%nat ->
-  (forall w0 c0 s v w' c' evs, isd w0 c0 s = Ret (v, w', c', evs) -> failed_at w0 g -> failed_at w' g) ->
-  forall ds w0 c0 must evs0 v w' c' evs,
-    walk_deps isd runid f r ds w0 c0 must evs0 = Ret (v, w', c', evs) -> failed_at w0 g -> failed_at w' g.
+(* A failure mark survives a check, provided the copy of the row that is judged
+   (and may be written back) is not older than the mark.  Copies of dependency
+   rows are taken when the walk of their parent starts, so below the root this
+   holds by itself. *)
+Lemma is_dirty_keeps_failed g : forall fuel runid w c f r mx seen v w' c' evs,
+  is_dirty fuel runid w c f r mx seen = Ret (v, w', c', evs) ->
+  failed_at w g -> ((g - 1 = f - 1)%nat -> r_failed r <> None) -> failed_at w' g.
 Proof.
-  intros Hne Hisd. induction ds as [|d ds IHds]; intros w0 c0 must evs0 v w' c' evs H Hg; cbn [walk_deps] in H.
-  - destruct must; [destruct c0|]; inversion H; subst; auto. now apply failed_at_put_row_other.
-  - destruct (d_mode d).
-    + destruct (exists_b w0 (r_name (get_row (dbs w0) (d_source d)))).
-      * inversion H; subst. exact Hg.
-      * eapply IHds; [exact H|exact Hg].
-    + destruct (isd w0 c0 (d_source d)) as [[[[v1 w1] c1] e1]|] eqn:E; [|discriminate].
-      pose proof (Hisd _ _ _ _ _ _ _ E Hg) as Hg1. destruct v1.
-      * eapply IHds; [exact H|exact Hg1].
-      * inversion H; subst. exact Hg1.
-      * eapply IHds; [exact H|exact Hg1].
-      * inversion H; subst. exact Hg1.
-Qed.
-
-Lemma is_dirty_keeps_failed g : forall fuel runid w c f mx seen v w' c' evs,
-  is_dirty fuel runid w c f mx seen = Ret (v, w', c', evs) -> failed_at w g -> failed_at w' g.
-Proof.
-  induction fuel as [|fuel IH]; intros runid w c f mx seen v w' c' evs H Hg; [discriminate|].
+  induction fuel as [|fuel IH]; intros runid w c f r mx seen v w' c' evs H Hg Hr; [discriminate|].
   cbn [is_dirty] in H.
   destruct (existsb (Nat.eqb f) seen); [inversion H; subst; exact Hg|].
-  set (r := load runid (dbs w) f) in *.
   destruct (r_failed r) eqn:Ef; [inversion H; subst; exact Hg|].
-  assert (Hne : (g - 1 <> f - 1)%nat).
-  { intro Heq. apply Hg. unfold r in Ef. rewrite load_failed in Ef. unfold get_row in *. now rewrite Heq. }
+  assert (Hne : (g - 1 <> f - 1)%nat) by (intro Heq; now apply (Hr Heq)).
   destruct (r_changed r) as [chg|]; [|inversion H; subst; exact Hg].
   destruct (Z.ltb mx chg); [inversion H; subst; exact Hg|].
   destruct (chk_is_checked c runid r f); [inversion H; subst; exact Hg|].
   destruct (r_stamp r) as [old|]; [|inversion H; subst; exact Hg].
   destruct (negb (stamp_eqb old (read_stamp w (r_name r)))).
   { inversion H; subst. now apply failed_at_forget_missing. }
-  eapply walk_deps_keeps_failed; [exact Hne| |exact H|exact Hg].
-  intros w0 c0 s v0 w0' c0' evs0 E. eapply IH; exact E.
+  eapply (walk_deps_inv (fun wk => failed_at wk g) (fun d rs => rs = load runid (dbs w) (d_source d)));
+    [| | |exact Hg|exact H].
+  - intros w1 c1 d rs v1 w1' c1' e1 -> Hg1 E. eapply IH; [exact E|exact Hg1|].
+    intro Heq. rewrite load_failed. unfold failed_at, get_row in *. now rewrite <- Heq.
+  - intros w1 Hg1. now apply failed_at_put_row_other.
+  - eapply Forall_impl; [|apply deps_rows_loaded]. cbn. intros x [_ Hx]. exact Hx.
 Qed.
 
-(* what a dirtiness check says about a failed row *)
-Lemma is_dirty_on_failed fuel runid w c s mx seen v w' c' evs :
-  is_dirty fuel runid w c s mx seen = Ret (v, w', c', evs) -> failed_at w s -> v = VDirty \/ v = VCycle.
+Corollary is_dirty_keeps_failed_fresh g fuel runid w c f mx seen v w' c' evs :
+  is_dirty fuel runid w c f (load runid (dbs w) f) mx seen = Ret (v, w', c', evs) ->
+  failed_at w g -> failed_at w' g.
+Proof.
+  intros H Hg. eapply is_dirty_keeps_failed; [exact H|exact Hg|].
+  intro Heq. rewrite load_failed. unfold failed_at, get_row in *. now rewrite <- Heq.
+Qed.
+
+(* what a dirtiness check says about a row whose copy carries a failure mark *)
+Lemma is_dirty_on_failed fuel runid w c s r mx seen v w' c' evs :
+  is_dirty fuel runid w c s r mx seen = Ret (v, w', c', evs) -> r_failed r <> None -> v = VDirty \/ v = VCycle.
 Proof.
   destruct fuel as [|fuel]; [discriminate|]. intros H Hs. cbn [is_dirty] in H.
   destruct (existsb (Nat.eqb s) seen); [inversion H; auto|].
-  unfold failed_at in Hs. rewrite <- (load_failed runid) in Hs.
-  destruct (r_failed (load runid (dbs w) s)); [inversion H; auto|congruence].
+  destruct (r_failed r); [inversion H; auto|congruence].
 Qed.
 
-Definition has_failed_dep (w : world) (ds : list dep) : Prop :=
-  exists d, In d ds /\ d_mode d = DModified /\ failed_at w (d_source d).
+Definition has_failed_dep (ds : list (dep * row)) : Prop :=
+  exists d rs, In (d, rs) ds /\ d_mode d = DModified /\ r_failed rs <> None.
 
 (* the walk never ends "clean" when something is already known to need a
-   rebuild, or when one of the Modified dependencies still to be looked at has failed *)
+   rebuild, or when the copy of one of the Modified dependencies still to be
+   looked at carries a failure mark *)
 Lemma walk_deps_failed_dep_not_clean isd runid f r :
-  (forall g w0 c0 s v w' c' evs, isd w0 c0 s = Ret (v, w', c', evs) -> failed_at w0 g -> failed_at w' g) ->
-  (forall w0 c0 s v w' c' evs, isd w0 c0 s = Ret (v, w', c', evs) -> failed_at w0 s -> v = VDirty \/ v = VCycle) ->
+  (forall w0 c0 s rs v w' c' evs, isd w0 c0 s rs = Ret (v, w', c', evs) -> r_failed rs <> None -> v = VDirty \/ v = VCycle) ->
   forall ds w0 c0 must evs0 v w' c' evs,
     walk_deps isd runid f r ds w0 c0 must evs0 = Ret (v, w', c', evs) ->
-    must <> [] \/ has_failed_dep w0 ds -> v <> VClean.
+    must <> [] \/ has_failed_dep ds -> v <> VClean.
 Proof.
-  intros Hkeep Hfail. induction ds as [|d ds IHds]; intros w0 c0 must evs0 v w' c' evs H Hor; cbn [walk_deps] in H.
-  - destruct Hor as [Hm|(d & [] & _)]. destruct must; [congruence|]. inversion H; subst. discriminate.
-  - assert (Hnext : forall w1, (forall g, failed_at w0 g -> failed_at w1 g) ->
-              (d_mode d = DModified -> failed_at w0 (d_source d) -> False) ->
-              must <> [] \/ has_failed_dep w1 ds).
-    { intros w1 Hk Hnot. destruct Hor as [Hm|(d' & [Hd|Hin] & Hmode & Hf)]; [now left| |].
-      - subst d'. exfalso. now apply Hnot.
-      - right. exists d'. repeat split; auto. }
+  intros Hfail. induction ds as [|[d rs] ds IHds]; intros w0 c0 must evs0 v w' c' evs H Hor; cbn [walk_deps] in H.
+  - destruct Hor as [Hm|(d & rs & [] & _)]. destruct must; [congruence|]. inversion H; subst. discriminate.
+  - assert (Hnext : (d_mode d = DModified -> r_failed rs <> None -> False) -> must <> [] \/ has_failed_dep ds).
+    { intros Hnot. destruct Hor as [Hm|(d' & rs' & [Hd|Hin] & Hmode & Hf)]; [now left| |].
+      - inversion Hd; subst d' rs'. exfalso. now apply Hnot.
+      - right. exists d', rs'. repeat split; auto. }
     destruct (d_mode d) eqn:Em.
-    + destruct (exists_b w0 (r_name (get_row (dbs w0) (d_source d)))).
+    + destruct (exists_b w0 (r_name rs)).
       * inversion H; subst. destruct (r_csum r); discriminate.
-      * eapply IHds; [exact H|]. apply Hnext; [auto|discriminate].
-    + destruct (isd w0 c0 (d_source d)) as [[[[v1 w1] c1] e1]|] eqn:E; [|discriminate].
+      * eapply IHds; [exact H|]. apply Hnext. discriminate.
+    + destruct (isd w0 c0 (d_source d) rs) as [[[[v1 w1] c1] e1]|] eqn:E; [|discriminate].
       destruct v1.
-      * eapply IHds; [exact H|]. apply Hnext; [intros g; eapply Hkeep; exact E|].
-        intros _ Hf. destruct (Hfail _ _ _ _ _ _ _ E Hf); discriminate.
+      * eapply IHds; [exact H|]. apply Hnext.
+        intros _ Hf. destruct (Hfail _ _ _ _ _ _ _ _ E Hf); discriminate.
       * inversion H; subst. destruct (r_csum r); discriminate.
       * eapply IHds; [exact H|].
-        destruct (Hnext w1) as [Hm|Hd]; [intros g; eapply Hkeep; exact E| |left|right; exact Hd].
-        { intros _ Hf. destruct (Hfail _ _ _ _ _ _ _ E Hf); discriminate. }
+        destruct Hnext as [Hm|Hd]; [|left|right; exact Hd].
+        { intros _ Hf. destruct (Hfail _ _ _ _ _ _ _ _ E Hf); discriminate. }
         destruct must; [congruence|discriminate].
       * inversion H; subst. discriminate.
 Qed.
 
 (* C05: a row with a recorded dependency on a failed row is not found clean by
-   any run that has not already verified it itself *)
-Theorem dependent_of_failed_not_clean fuel runid w c f mx seen v w' c' evs :
-  is_dirty fuel runid w c f mx seen = Ret (v, w', c', evs) ->
-  chk_is_checked c runid (load runid (dbs w) f) f = false ->
-  has_failed_dep w (deps_of (dbs w) (load runid (dbs w) f) f) ->
+   any run that has not already dealt with it itself *)
+Theorem dependent_of_failed_not_clean fuel runid w c f r mx seen v w' c' evs :
+  is_dirty fuel runid w c f r mx seen = Ret (v, w', c', evs) ->
+  chk_is_checked c runid r f = false ->
+  (exists d, In d (deps_of (dbs w) r f) /\ d_mode d = DModified /\ failed_at w (d_source d)) ->
   v <> VClean.
 Proof.
-  destruct fuel as [|fuel]; [discriminate|]. intros H Hchk Hdep. cbn [is_dirty] in H.
+  destruct fuel as [|fuel]; [discriminate|]. intros H Hchk (d & Hin & Hm & Hf). cbn [is_dirty] in H.
   destruct (existsb (Nat.eqb f) seen); [inversion H; discriminate|].
-  set (r := load runid (dbs w) f) in *.
   destruct (r_failed r); [inversion H; discriminate|].
   destruct (r_changed r) as [chg|]; [|inversion H; discriminate].
   destruct (Z.ltb mx chg); [inversion H; discriminate|].
@@ -129,7 +119,9 @@ Proof.
   destruct (r_stamp r) as [old|]; [|inversion H; discriminate].
   destruct (negb (stamp_eqb old (read_stamp w (r_name r)))).
   { inversion H; subst. destruct (r_csum r); discriminate. }
-  eapply walk_deps_failed_dep_not_clean; [| |exact H|right; exact Hdep].
-  - intros g w0 c0 s v0 w0' c0' evs0 E. eapply is_dirty_keeps_failed; exact E.
-  - intros w0 c0 s v0 w0' c0' evs0 E. eapply is_dirty_on_failed; exact E.
+  eapply walk_deps_failed_dep_not_clean; [|exact H|right].
+  - intros w0 c0 s rs v0 w0' c0' evs0 E. eapply is_dirty_on_failed; exact E.
+  - exists d, (load runid (dbs w) (d_source d)). split; [|split; [exact Hm|]].
+    + unfold deps_rows. apply in_map_iff. exists d. split; [reflexivity|exact Hin].
+    + rewrite load_failed. exact Hf.
 Qed.
